@@ -67,38 +67,12 @@ def run(prog: Program, res: Result) -> None:
         res.add(Finding(P, f"C10.{rule}", key or construct_key(prog, node, mod), f"{mod.relpath}:{getattr(node, 'lineno', 0)}", msg))
 
     # ------------------------------------------------------------------ R1
-    ga = prog.func(f"{ABSTRACT}._generate_agents")
-    n_param = ga.params[1]
-    comps = [n for n in own_nodes(ga) if isinstance(n, ast.ListComp)]
-    n_ok = 0
-    for c in comps:
-        g = c.generators[0]
-        src = origin(ga.node, g.iter) if isinstance(g.iter, ast.Name) else g.iter
-        over_range = isinstance(src, ast.Call) and isinstance(src.func, ast.Name) and src.func.id == "range" and (
-            (len(src.args) == 2 and isinstance(src.args[0], ast.Constant) and src.args[0].value == 0 and dotted(src.args[1]) == n_param)
-            or (len(src.args) == 1 and dotted(src.args[0]) == n_param))
-        # a list built by such a comprehension (positions) also has n elements
-        if not over_range and isinstance(src, ast.ListComp) and len(src.generators) == 1 and not src.generators[0].ifs:
-            s2 = src.generators[0].iter
-            over_range = isinstance(s2, ast.Call) and isinstance(s2.func, ast.Name) and s2.func.id == "range" and (
-                (len(s2.args) == 2 and isinstance(s2.args[0], ast.Constant) and s2.args[0].value == 0 and dotted(s2.args[1]) == n_param)
-                or (len(s2.args) == 1 and dotted(s2.args[0]) == n_param))
-        ok = len(c.generators) == 1 and not g.ifs and over_range
-        key = construct_key(prog, c, M)
-        res.ob(ok, f"{M.relpath}:{c.lineno} {norm(c, 90)}", key)
-        if ok:
-            n_ok += 1
-        else:
-            bad("R1-generate-agents-exact", c, f"`{norm(c, 90)}` in _generate_agents does not produce exactly one item per element of range(0, {n_param})")
-    res.count("generate_agents-comprehensions", len(comps))
+    n_comp, issues = check_generate_agents(prog)
+    res.count("generate_agents-comprehensions", n_comp)
     res.floor("generate_agents-comprehensions", 2)
-    rets = [n for n in own_nodes(ga) if isinstance(n, ast.Return)]
-    for r in rets:
-        v = origin(ga.node, r.value)
-        ok = isinstance(v, ast.ListComp) or (isinstance(v, ast.Call) and dotted(v.func) == "get_pool_results")
-        res.ob(ok, None, construct_key(prog, r, M))
-        if not ok:
-            bad("R1-generate-agents-exact", r, f"_generate_agents returns `{norm(r.value, 60)}`, not the complete list of created agents")
+    for (node, msg) in issues:
+        bad("R1-generate-agents-exact", node, msg)
+    res.ob(not issues, f"{M.relpath}: _generate_agents yields one agent per element of range(0, n_agents) in serial and pooled mode", "generate_agents")
     ip = prog.func(f"{ABSTRACT}._init_population")
     calls = [n for n in own_nodes(ip) if isinstance(n, ast.Call) and dotted(n.func) == "self._generate_agents"]
     ok = len(calls) == 1 and len(calls[0].args) == 1 and dotted(calls[0].args[0]) == "self._config.population_size" \
@@ -190,6 +164,36 @@ def run(prog: Program, res: Result) -> None:
     present = [ci.name for ci in opts if (ci.name[:-len("Optimization")] if ci.name.endswith("Optimization") else ci.name) in CONSERVED]
     if len(present) < N_CONSERVED:
         res.errors.append(f"only {len(present)} of the {N_CONSERVED} reference-listed conserved optimizers are exported")
+
+
+def check_generate_agents(prog: Program) -> tuple:
+    """Both branches of _generate_agents(n) produce exactly one item per element of range(0, n) (the pooled branch may
+    go through a list that is itself built that way).  -> (number of comprehensions, [(node, message)])"""
+    ga = prog.func(f"{ABSTRACT}._generate_agents")
+    M = ga.module
+    n_param = ga.params[1]
+    issues = []
+
+    def over_n(src):
+        return isinstance(src, ast.Call) and isinstance(src.func, ast.Name) and src.func.id == "range" and (
+            (len(src.args) == 2 and isinstance(src.args[0], ast.Constant) and src.args[0].value == 0 and dotted(src.args[1]) == n_param)
+            or (len(src.args) == 1 and dotted(src.args[0]) == n_param))
+    comps = [n for n in own_nodes(ga) if isinstance(n, ast.ListComp)]
+    for c in comps:
+        g = c.generators[0]
+        src = origin(ga.node, g.iter) if isinstance(g.iter, ast.Name) else g.iter
+        ok = over_n(src)
+        if not ok and isinstance(src, ast.ListComp) and len(src.generators) == 1 and not src.generators[0].ifs:
+            ok = over_n(src.generators[0].iter)
+        ok = ok and len(c.generators) == 1 and not g.ifs
+        if not ok:
+            issues.append((c, f"`{norm(c, 90)}` in _generate_agents does not produce exactly one item per element of range(0, {n_param}): "
+                              f"serial and pooled modes would create different numbers of agents"))
+    for r in [n for n in own_nodes(ga) if isinstance(n, ast.Return)]:
+        v = origin(ga.node, r.value)
+        if not (isinstance(v, ast.ListComp) or (isinstance(v, ast.Call) and dotted(v.func) == "get_pool_results")):
+            issues.append((r, f"_generate_agents returns `{norm(r.value, 60)}`, not the complete list of created agents"))
+    return len(comps), issues
 
 
 # ---------------------------------------------------------------------------------------------
